@@ -26,6 +26,11 @@ if sys.path[0:1] != [REPO]:
     sys.path.insert(0, REPO)
 
 
+def rm_rf(path):
+    """Remove a scratch directory even when it is nested deeper than Python's recursion limit."""
+    subprocess.call(["rm", "-rf", "--", path])
+
+
 def seed_from_env():
     try:
         return int(os.environ.get("VERIF_SEED", "0"))
